@@ -69,5 +69,14 @@ def rescale (s : Summary) (f : F64) : Summary :=
 
 def clear (_ : Summary) : Summary := new
 
+/-- `NewSummaryStatisticsFromData(count, sum, min, max)`: `none` when the constructor returns an
+    error (`!(count >= 0)`; `count > 0 && min > max`; `count == 0` without the ±Inf sentinels) -/
+def fromData (count sum min max : F64) : Option Summary :=
+  if !(F64.ge count (.fin 0)) then none
+  else if F64.gt count (.fin 0) && F64.gt min max then none
+  else if F64.eq count (.fin 0) && (min != .pinf || max != .ninf) then none
+  else some { count := count, sum := sum, sumCompensation := .fin 0, simpleSum := sum,
+              min := min, max := max }
+
 end Summary
 end DDS
